@@ -171,9 +171,17 @@ func (ex *Exec) runJob(l *Loaded, tmpl *State, cfg JobConfig) (res *JobResult) {
 		sort.Strings(res.Funcs)
 		s.Close()
 		if r := recover(); r != nil {
+			if _, ok := r.(jobTimeout); ok {
+				res.Status = "undecided"
+				res.Inconclusive = append(res.Inconclusive, fmt.Sprintf("job wall-time bound %d ms reached with %d states pending after %d paths", ex.cfg.WallMs, len(ex.work), res.Paths))
+				return
+			}
 			if ee, ok := r.(*EngineError); ok {
 				res.Status = "unsupported"
 				res.Unsupported = ee.msg
+				if os.Getenv("GOSMT_DEBUG") != "" {
+					res.Unsupported += "\n" + string(debug.Stack())
+				}
 				return
 			}
 			res.Status = "unsupported"
@@ -191,7 +199,10 @@ func (ex *Exec) runJob(l *Loaded, tmpl *State, cfg JobConfig) (res *JobResult) {
 	st := tmpl.clone()
 	ex.pushFrame(st, fn, nil, nil, nil)
 	ex.work = []*State{st}
-	deadline := time.Time{}
+	if ex.cfg.WallMs == 0 {
+		ex.cfg.WallMs = 300000
+	}
+	ex.deadline = time.Now().Add(time.Duration(ex.cfg.WallMs) * time.Millisecond)
 	for len(ex.work) > 0 {
 		s := ex.work[len(ex.work)-1]
 		ex.work = ex.work[:len(ex.work)-1]
@@ -201,7 +212,6 @@ func (ex *Exec) runJob(l *Loaded, tmpl *State, cfg JobConfig) (res *JobResult) {
 			res.Inconclusive = append(res.Inconclusive, fmt.Sprintf("path bound %d reached with %d states pending", cfg.MaxPaths, len(ex.work)))
 			break
 		}
-		_ = deadline
 	}
 	if len(res.Violations) > 0 {
 		res.Status = "violation"
